@@ -20,6 +20,7 @@ EXEMPT = LOGIN + ["/nacos/metrics", "/nacos/v1/raft/close-write"]
 FILES = ["src/openapi/middle/auth_middle.rs", "src/web_config.rs", "src/openapi/mod.rs", "src/grpc/handler/mod.rs"]
 
 valid_token = z3.Function("valid_token", z3.StringSort(), z3.BoolSort())
+LOOKUP_ERR = z3.Bool("session_lookup_fails")
 
 
 def eval_http_middleware(prog):
@@ -47,6 +48,9 @@ def eval_http_middleware(prog):
         if isinstance(key.get("cache_type"), Enum) and key["cache_type"].variant != "ApiTokenSession":
             interp.emit("wrong-cache-type", key["cache_type"].variant)
         used["token"] = tok
+        # the lookup itself can fail (token not in the local cache and the leader cannot be asked): no session is known then
+        if interp.branch(LOOKUP_ERR):
+            return Err(Uninterp("session-lookup-error", []))
         if interp.branch(valid_token(rseval.to_str(tok))):
             return Ok(Some(Struct("Session", {})))
         return Ok(NONE)
@@ -243,7 +247,7 @@ def run(tier, seed):
     # ---- S16.2 middleware decision: forwarded => auth off, or unchecked path, or a non-empty valid token was presented
     timer = [0.0, 0]
     ob = {"engine": "smt", "harness": "s16_2_middleware_decision", "encodes": ["ApiCheckAuthMiddleware::call (whole body, lenient evaluation)"],
-          "encodes_files": FILES, "bound": "every path string, every presence/value of header, query and body token, every session-lookup answer",
+          "encodes_files": FILES, "bound": "every path string, every presence/value of header, query and body token, every session-lookup answer (session, no session, lookup error)",
           "queries": 0, "solver_s": 0.0, "distinct": 0}
     try:
         forward, sy, opaque, npaths, q = eval_http_middleware(prog)
@@ -253,7 +257,8 @@ def run(tier, seed):
         presented = z3.Or(z3.And(sy["has_hdr"], sy["hdr_tok"] != z3.StringVal(""), valid_token(sy["hdr_tok"])),
                           z3.And(sy["has_qry"], sy["qry_tok"] != z3.StringVal(""), valid_token(sy["qry_tok"])),
                           z3.And(sy["body_tok"] != z3.StringVal(""), valid_token(sy["body_tok"])))
-        s.add(forward, sy["enable"], chk, z3.Not(presented))
+        # a failing session lookup means that no session is known: the request must not be forwarded either
+        s.add(forward, sy["enable"], chk, z3.Or(z3.Not(presented), LOOKUP_ERR))
         r = solve(s, timer)
         if r == z3.sat:
             m = s.model()
